@@ -709,6 +709,13 @@ def check_C20(tier):
     a = vlib.apalache("ClockFlatApa.tla", wd, ["--cinit=CInit", "--init=Init", "--inv=Inv", "--length=0"])
     out.cov["apalache"] = {"result": "Inv (AddSubInverse, ExactModulo, EqualIff, Antisymmetric, OrderOfSum, AgreesWithLater, "
                            "Antipodal) holds for ALL (a, d) in [0, 2^32)^2 for the transcription of time.rs", "wall_s": round(a["wall"], 1)}
+    t1 = vlib.tlaps(["ClockFlat.tla", "ClockFlatProof.tla"], "ClockFlatProof.tla", wd)
+    t2 = {"wall": 0.0} if tier == "quick" else vlib.tlaps(["ClockFlat.tla", "ClockFlatProof.tla"], "ClockFlatProof.tla", wd, timeout=900,
+                    mutate=("ClockFlat.tla", "IN IF mx - mn <= H - 1 THEN plain ELSE -plain", "IN IF mx - mn <= H THEN plain ELSE -plain"))
+    out.cov["tlaps"] = {"theorem": "Init => Inv: every clock law for every (a, d) in [0, 2^32)^2 (deductive, SMT back end; one theorem per law)",
+                        "obligations_proved": t1["obligations"],
+                        "negative_control": "threshold 2^31 instead of 2^31 - 1 in compare: proof fails" if tier != "quick" else "thorough tier only",
+                        "wall_s": round(t1["wall"] + t2["wall"], 1)}
     vlib.build_harness()
     nsh = 1 if tier == "quick" else 8
 
@@ -725,7 +732,7 @@ def check_C20(tier):
     s5(out, "Trace_Clock.tla", {"Base": 65536}, path, "clock", wd)
     sample_events(out, path, ("Clk",), n=2)
     out.assumptions = ["ClockFlat!Impl* is a faithful transcription of time.rs (bound to the code by the trace check on boundary pairs)",
-                       "Apalache/Z3; TLC; harness logger"]
+                       "Apalache/Z3; tlapm (SMT back end); TLC; harness logger"]
     return out.finish(rule="boundary product {0,1,2,2^24-1,2^24,2^31-2..2^31+2,2^32-2,2^32-1,...}^2 taken both as (a,d) and as "
                            "(a,a+d), plus seeded random pairs biased to distances 2^31-2..2^31+1; every operator on the real "
                            "RtmpTimestamp (timestamp/timestamp, timestamp/u32, u32/timestamp) recomputed in TLA+")
